@@ -133,6 +133,7 @@ let parse_op (toks : string list) : opinfo =
   | "scandir" -> mk ~lim:(int_of_string (a 2)) (OScandir (path_of (a 1), Z0)) KScandir
   | "copyfile" -> mk (OCopyfile (path_of (a 1), path_of (a 2), zi (int_of_string (a 3)))) KPath2
   | "sendfile" -> mk (OSendfile (zi (slot (a 1)), zi (slot (a 2)), z_of_string (a 3), z_of_string (a 4))) KFd
+  | "statx95" -> mk (OStat (path_of (a 1))) KStat
   | "cancel" ->
       let kind, big = match a 1 with
         | "stat" -> KStat, false | "read" -> KRead, true | "write" -> KWrite, true
@@ -160,7 +161,7 @@ type rt = Sync | Pool | Ring | Cancel
 let h_empty = { live = []; bad_free = false }
 let count h = int_of_nat (uv_live h)
 
-let tuple (kind : fskind) (r : rt) ~(big : bool) ~(early : bool) ~(ok : bool) ~(n : int) ~(lim : int) : string =
+let tuple ?(uns = false) (kind : fskind) (r : rt) ~(big : bool) ~(early : bool) ~(ok : bool) ~(n : int) ~(lim : int) : string =
   let h0 = match kind with KReaddir | KClosedir -> alloc BkDir h_empty | _ -> h_empty in
   let c0 = count h0 in
   let cb = r <> Sync in
@@ -172,7 +173,7 @@ let tuple (kind : fskind) (r : rt) ~(big : bool) ~(early : bool) ~(ok : bool) ~(
       match r with
       | Sync -> let (q, h) = work_effect q1 ok nn h1 in (h, (q, h))
       | Pool -> (h1, work_effect q1 ok nn h1)
-      | Ring -> let (qs, hs) = ring_submit q1 h1 in (hs, ring_finish qs ok false nn hs)
+      | Ring -> let (qs, hs) = ring_submit q1 h1 in (hs, ring_finish qs ok uns nn hs)
       | Cancel -> (h1, (q1, h1))
     end in
   let k = if ok && kind = KScandir then (if lim = 0 || lim > n then n + 1 else lim) else 0 in
@@ -215,7 +216,15 @@ let routes_case (line : string) : string =
            Buffer.add_string buf (Printf.sprintf " via=- sqe=- mS=- mP=%s mR=-"
              (tuple info.kind Cancel ~big:info.big ~early:false ~ok:false ~n:0 ~lim:0))
        | Some op ->
-         if r 0 = "alias" then
+         if name = "statx95" then begin
+           (* ring statx whose completion carries -EOPNOTSUPP: re-posted to the pool *)
+           let ring = takes_ring ring_ok kv op in
+           let sq = if ring then (match sqe_of kv op with Some s -> sqe_text s | None -> "-") else "-" in
+           let (ok, n) = okn (r 2) in
+           Buffer.add_string buf (Printf.sprintf " via=%s sqe=%s mS=- mP=- mR=%s"
+             (if ring then "r" else "-") sq
+             (if ring then tuple ~uns:true info.kind Ring ~big:false ~early:false ~ok ~n ~lim:0 else "-"))
+         end else if r 0 = "alias" then
            Buffer.add_string buf " via=- sqe=- mS=- mP=- mR=-"
          else if name = "readdir" then begin
            (* opendir / readdir / closedir, each "a/b/c" in the result columns *)
